@@ -1260,7 +1260,15 @@ fn parse_expression_with_trailing(
                 {
                     let variable = parse_symbol(tokens, id_gen, diagnostics, Some("method name"));
 
-                    if peeked_symbol_is(tokens, "(") {
+                    // As with function calls, the parenthesis must
+                    // touch the name: `p.x` at the end of a line
+                    // followed by a line starting with `(` is a field
+                    // access and then a parenthesised expression.
+                    let paren_touches_name = tokens.peek().is_some_and(|tok| {
+                        tok.text == "(" && tok.position.start_offset == variable.position.end_offset
+                    });
+
+                    if paren_touches_name {
                         // TODO: just treat a method call as a call of a dot access.
                         let arguments = parse_call_arguments(tokens, id_gen, diagnostics);
 
